@@ -24,10 +24,10 @@ func scenarios(tier string) []engine.Scenario {
 	var scs []engine.Scenario
 	chains := []chainT{tinyChain(), mixedChain(), bigChain()}
 	seqDepth, qpDepth, terDepth, gauDepth, crpDepth := 5, 3, 4, 4, 3
-	momentsReads, lvlDepth := 4096, 2
+	momentsReads, lvlDepth := 4096, 3
 	if thorough {
 		seqDepth, qpDepth, terDepth, gauDepth, crpDepth = 6, 4, 6, 5, 5
-		momentsReads, lvlDepth = 1<<16, 3
+		momentsReads, lvlDepth = 1<<16, 4
 	}
 	for _, ch := range chains {
 		scs = append(scs, uniformAnswersScenario(ch))
@@ -41,9 +41,9 @@ func scenarios(tier string) []engine.Scenario {
 	for first := range qpOps {
 		scs = append(scs, ringqpSequenceScenario(qpDepth, first))
 	}
-	ps := []float64{2.0 / 3, 0.25}
+	ps := []float64{2.0 / 3, 0.25, 1.0 / 3, 0.9}
 	if thorough {
-		ps = append(ps, 1.0/3, 0.9, 0.03125, 0.999)
+		ps = append(ps, 0.03125, 0.999, 0.75, 0.1)
 	}
 	for _, P := range ps {
 		scs = append(scs, ternaryKYScenario(P), ternaryKYJointScenario(P))
@@ -69,6 +69,7 @@ func scenarios(tier string) []engine.Scenario {
 	for _, ch := range []chainT{tinyChain(), mixedChain()} {
 		scs = append(scs, constructionLevelScenario(ch, lvlDepth))
 	}
+	scs = append(scs, ringqpConstructionLevelScenario(2))
 	return scs
 }
 
@@ -114,7 +115,7 @@ func main() {
 			for _, o := range gauViewOps {
 				e = append(e, "gaussian-montgomery-view-op="+o)
 			}
-			e = append(e, "ternary-seq-montgomery=true", "ternary-seq-montgomery=false", "construction-level=raised", "construction-level=lowered", "construction-level=same",
+			e = append(e, "ternary-seq-montgomery=true", "ternary-seq-montgomery=false", "construction-level=raised", "construction-level-ringqp=raised", "construction-level-ringqp=not-raised", "construction-level=lowered", "construction-level=same",
 				"prng-reused-buffer=2", "prng-reused-buffer=4")
 			for _, k := range levelKinds(tinyChain()) {
 				e = append(e, "construction-level-kind="+k.name)
